@@ -131,7 +131,10 @@ static inline WriteOutcome run_writer(const gen::WritePlan& p, const std::string
             std::unique_ptr<int16_t[]> defs;
             if (b.pass_def) { defs.reset(new int16_t[b.count ? b.count : 1]); for (int64_t i = 0; i < b.count; i++) defs[(size_t)i] = ch.def[(size_t)(b.start + i)]; }
             if (g_bad_call_at == call && !g_bad_call_made && g_bad_call_kind == 2) {
-                if (b.count > 0) { g_bad_call_made = true; call++; continue; }
+                // only when the column keeps rows from its other batches in this row group (a column that receives nothing at all is
+                // something the library's own test suite does and expects to succeed)
+                int64_t others = 0; for (auto& b2 : p.rgs[g].batches) if (b2.col == b.col && &b2 != &b) others += b2.count;
+                if (b.count > 0 && others > 0) { g_bad_call_made = true; call++; continue; }
             } else if (g_bad_call_at == call && !g_bad_call_made) {
                 g_bad_call_made = true;
                 int32_t bc = g_bad_call_kind == 0 ? -1 : g_bad_call_kind == 1 ? (int32_t)p.table.cols.size() : b.col;
